@@ -724,6 +724,27 @@ func dominatesOrSame(a, b *ssa.BasicBlock) bool {
 // loopEnv: environment for invariants at loop head b. init selects the values on entry.
 func (g *Gen) loopEnv(b *ssa.BasicBlock, init bool) *Env {
 	env := g.fnEnv(nil)
+	// a parameter that is reassigned in the loop is denoted by its loop-carried value
+	{
+		vars := map[string]TV{}
+		for k, v := range env.vars {
+			vars[k] = v
+		}
+		for _, in := range b.Instrs {
+			phi, ok := in.(*ssa.Phi)
+			if !ok {
+				break
+			}
+			if _, isParam := vars[phi.Comment]; isParam && phi.Comment != "" {
+				if init {
+					vars[phi.Comment] = TV{g.phiInit[phi], sortOf(phi.Type()), phi.Type()}
+				} else {
+					vars[phi.Comment] = TV{g.v(phi), sortOf(phi.Type()), phi.Type()}
+				}
+			}
+		}
+		env.vars = vars
+	}
 	base := env.lookup
 	env.lookup = func(name string, e *Env) (TV, bool) {
 		for _, in := range b.Instrs {
@@ -756,6 +777,23 @@ func (g *Gen) loopEnvBack(head, p *ssa.BasicBlock) *Env {
 		if q == p {
 			idx = i
 		}
+	}
+	{
+		vars := map[string]TV{}
+		for k, v := range env.vars {
+			vars[k] = v
+		}
+		for _, in := range head.Instrs {
+			phi, ok := in.(*ssa.Phi)
+			if !ok {
+				break
+			}
+			if _, isParam := vars[phi.Comment]; isParam && phi.Comment != "" {
+				ev := phi.Edges[idx]
+				vars[phi.Comment] = TV{g.v(ev), sortOf(phi.Type()), phi.Type()}
+			}
+		}
+		env.vars = vars
 	}
 	env.lookup = func(name string, e *Env) (TV, bool) {
 		for _, in := range head.Instrs {
